@@ -225,6 +225,19 @@ def c19_jobs(tier, seed):
                          "switches": "sweep1", "limit": (30 if not thorough else 400), "offset": sh * 5 + seed, **s})
             jobs.append({"id": f"C19-w4-{name}-linehk{sh}", "world": w, "scenario": name, "after": probes, "granularity": "line",
                          "switches": "sweepab", "near_hooks": 2, "limit": (30 if not thorough else 1500), "offset": sh * 211 + seed, **s})
+    # the same races with the calls made on the Ovld object (what variants, copies and mixin combinations hand out)
+    w, probes = W1()
+    wo = dict(w, via="object")
+    a, b = probes[0], probes[1]
+    for name, s in {"obj_first_diff": dict(threads={"A": a, "B": b}, warm=[]), "obj_first_same": dict(threads={"A": a, "B": a}, warm=[])}.items():
+        jobs.append({"id": f"C19-w1-{name}-hook", "world": wo, "scenario": name, "after": probes, "granularity": "hook", "switches": "sweep1", **s})
+        jobs.append({"id": f"C19-w1-{name}-hookab", "world": wo, "scenario": name, "after": probes, "granularity": "hook", "switches": "sweepab",
+                     "limit": (60 if not thorough else None), "offset": seed, **s})
+        for sh in range(2 if not thorough else 8):
+            jobs.append({"id": f"C19-w1-{name}-late{sh}", "world": wo, "scenario": name, "after": probes, "granularity": "line",
+                         "switches": "sweepab", "pattern": "late_rebuild", "limit": (30 if not thorough else 1200), "offset": sh * 97 + seed, **s})
+            jobs.append({"id": f"C19-w1-{name}-line{sh}", "world": wo, "scenario": name, "after": probes, "granularity": "line",
+                         "switches": "sweep1", "limit": (15 if not thorough else 400), "offset": sh * 5 + seed, **s})
     # racing calls that differ in the optional keywords they supply, on a function that is built and warm
     w, probes = W5()
     pairs = {"kw_kj": (probes[0], probes[1]), "kw_none": (probes[0], probes[2]), "kw_both": (probes[3], probes[1])}
